@@ -8,12 +8,14 @@ PROGRAMS = [
     # Close frames with an empty payload (close(None), the echo of a server Close without status)
     ("empty-close-vs-send", {"compress": False, "threads": {"A": [["close_empty"]], "B": [["send_text", "B1"], ["send_binary", [66, 50]]]}}),
     ("empty-close-echo-vs-close-and-send", {"compress": False, "threads": {"L": [["loop_close_echo_empty"]], "A": [["close"]], "B": [["send_text", "B1"]]}}),
+    # close(), then the consumer abandons the iterator (feed()'s GeneratorExit handler -> on_disconnect()) while another thread sends
+    ("close-then-abandon-vs-send", {"compress": False, "threads": {"L": [["close"], ["loop_on_disconnect"]], "B": [["send_text", "B1"], ["send_binary", [66, 50]]]}}),
     ("close-vs-loop-echo", {"compress": False, "threads": {"A": [["close"]], "L": [["loop_close_echo", 1000]], "B": [["send_ping", [7]]]}}),
     ("close-vs-loop-pong-and-ping", {"compress": False, "threads": {"A": [["close"]], "L": [["loop_pong", [1]], ["loop_autoping"]], "B": [["send_text", "B1"]]}}),
 ]
 BQ = {name: 1 for name, _ in PROGRAMS}
-BT = {"empty-close-vs-send": 2, "empty-close-echo-vs-close-and-send": 1, "close-vs-send": 2, "close-vs-close": 2, "close-vs-compressed-send": 2, "close-vs-loop-echo": 1, "close-vs-loop-pong-and-ping": 1}
-RULE = ('every schedule with at most 1-2 pre-emptions (line granularity, stateless exhaustive search) of 7 thread programs built around close() (with and without a status code): close() against '
+BT = {"close-then-abandon-vs-send": 2, "empty-close-vs-send": 2, "empty-close-echo-vs-close-and-send": 1, "close-vs-send": 2, "close-vs-close": 2, "close-vs-compressed-send": 2, "close-vs-loop-echo": 1, "close-vs-loop-pong-and-ping": 1}
+RULE = ('every schedule with at most 1-2 pre-emptions (line granularity, stateless exhaustive search) of 8 thread programs built around close() (with and without a status code): close() against '
         'send_text/send_binary/send_ping, against another close(), against the loop echoing a server Close, answering a Ping and sending an automatic Ping; every '
         'sendall split in two steps; every schedule with one pre-emption at OPCODE granularity for the two-thread programs; thorough adds 6000 random opcode-granular schedules; non-trivial = distinct (program, wire order, call results)')
 
